@@ -490,3 +490,130 @@ from contracts import C02 as _c02   # noqa: E402
 class DescriptorCommitCopiesState(_c02.UpdateCorrespondingStateNotInTx):
     id = 'C03.descriptor_commit_never_writes_the_stored_state'
     prop = 'C03'
+
+
+@register
+class StateWriteEntities(FnCheck):
+    id = 'C03.state_write_entities'
+    prop = 'C03'
+    tag = 'S'
+    opaque_ok = True
+    target = 'sdc11073.mdib.transactions:StateTransactionBase.write_entities'
+    doc = ('StateTransactionBase.write_entities is all-or-nothing: whatever exception ends the call - a rejection by the '
+           'up-front checks (multi-state entity, state of another kind) or one raised by write_entity for a later entity - '
+           'the pending updates of the transaction are exactly what they were when the call started; an accepted call makes '
+           'one write_entity call per entity')
+    trusted = ('write_entity writes only the pending-update dict of the transaction (C02.write_entity)',)
+    stable_fields = ('_state_updates',)
+    field_types = {'is_multi_state': 'bool'}
+
+    def setup(self, b):
+        st = b.st
+        self.upd = b.obj('state_updates')
+        st.assume(z3.Select(st.get_arr('C'), self.upd.e) == b.ex.ctx.builtin_class_ids['dict'])
+        st.assume(z3.Select(st.get_arr('DN'), self.upd.e) >= 0)
+        self.o = b.obj('self', cls=('sdc11073.mdib.transactions', 'StateTransactionBase'), _state_updates=self.upd)
+        ents = b.obj('entities')
+        st.assume(z3.Select(st.get_arr('C'), ents.e) == b.ex.ctx.builtin_class_ids['list'])
+        b.distinct(self.o, self.upd, ents)
+        st.ghost['calls'] = ()
+        self.type_ok = z3.Function('is_correct_state_type', Val, BoolS)
+        self.entry = {a: st.get_arr(a) for a in ('DK', 'DV')}
+        return self.o, [ents, b.bool('adjust_version_counter')], {}
+
+    def callees(self, ex):
+        return {'*._is_correct_state_type': Pure(lambda e, st, a, k: vbool(self.type_ok(st.box(a[0]))),
+                                                 name='_is_correct_state_type: pure predicate of the state')}
+
+    def hooks(self, ex):
+        chk = self
+
+        class H:
+            tracked_names = ('write_entity',)
+
+            @staticmethod
+            def on_loop_havoc(ex_, st, node):
+                st.ghost['calls'] += (('#loop', ex_.loop_ordinal(node)),)
+
+            @staticmethod
+            def on_call(ex_, st, fv, keys, args, kwargs, node):
+                name = getattr(fv, 'name', None) or (fv.fn.name if fv.t == 'repo' else None)
+                if name != 'write_entity':
+                    return None
+                st.ghost['calls'] += (('write_entity', st.box(args[0])),)
+                # write_entity: arbitrary change of the pending updates, or an exception (possibly after a change)
+                for a in ('DK', 'DV', 'DN'):
+                    st.set_arr(a, z3.Store(st.get_arr(a), chk.upd.e, fresh(z3.Select(st.get_arr(a), chk.upd.e).sort(), 'written')))
+                bad = st.fork()
+                return [(bad, Raise(ex_.mk_exc('*', 'raised by write_entity'))), (st, NONE)]
+        return H
+
+    def loops(self, ex):
+        """Loop specs are assigned by what a loop does (it calls write_entity or not), not by its position, so that a
+        re-arrangement of the function is judged by the postconditions and not reported as a changed shape."""
+        import ast
+        _, _, fn = ex.ctx.repo.find(self.target)
+        fors = sorted((n for n in ast.walk(fn) if isinstance(n, (ast.For, ast.While))), key=lambda n: (n.lineno, n.col_offset))
+
+        def own(st, ordinal):
+            calls = st.ghost['calls']
+            heads = [i for i, c in enumerate(calls) if c == ('#loop', ordinal)]
+            return tuple(c for c in calls[heads[-1] + 1:] if c[0] != '#loop') if heads else ()
+
+        def saved_inv(st):
+            saved = st.locals.get('saved_updates')
+            if saved is not None and saved.kind == 'ref':
+                # the private copy taken before the first write still is the content the call started with
+                return {'saved_copy_of_the_pending_updates_is_not_written': z3.And(*[
+                    z3.Select(st.get_arr(a), saved.e) == z3.Select(self.entry[a], self.upd.e) for a in ('DK', 'DV')])}
+            return z3.BoolVal(True)
+
+        def mk_check(ordinal, var):
+            def check(ex_, st, env):
+                if env['_phase'] == 'preserve' and var in st.locals:
+                    ent = st.box(st.locals[var])
+                    ex_.oblige(st, 'an_entity_that_passes_the_checks_is_single_state_and_of_the_right_kind', z3.And(
+                        z3.Not(Val.b(z3.Select(st.get_arr('f:is_multi_state'), Val.oid(ent)))),
+                        self.type_ok(z3.Select(st.get_arr('f:state'), Val.oid(ent)))), kind='loop')
+                return saved_inv(st)
+            return LoopSpec(inv=check, havoc_heap=[])
+
+        def mk_write(ordinal, var):
+            def write(ex_, st, env):
+                if env['_phase'] == 'preserve' and var in st.locals:
+                    o = own(st, ordinal)
+                    ex_.oblige(st, 'one_write_entity_per_entity', z3.And(z3.BoolVal(len(o) == 1), o[0][1] == st.box(st.locals[var]))
+                               if len(o) == 1 else z3.BoolVal(False), kind='loop')
+                return saved_inv(st)
+            return LoopSpec(inv=write, havoc_heap=['DK', 'DV', 'DN'])
+        specs = {}
+        for i, node in enumerate(fors):
+            var = node.target.id if isinstance(node, ast.For) and isinstance(node.target, ast.Name) else ''
+            writes = any(isinstance(c, ast.Call) and isinstance(c.func, ast.Attribute) and c.func.attr == 'write_entity'
+                         for c in ast.walk(node))
+            specs[i] = mk_write(i, var) if writes else mk_check(i, var)
+        return specs
+
+    def post(self, ex, st0, st, outcome, b):
+        calls = st.ghost['calls']
+        if outcome[0] == 'exc':
+            exc = outcome[1]
+            kq = z3.Const('kq', Val)
+            has0 = z3.Select(z3.Select(st0.get_arr('DK'), self.upd.e), kq)
+            same = z3.ForAll([kq], z3.And(
+                z3.Select(z3.Select(st.get_arr('DK'), self.upd.e), kq) == has0,
+                z3.Implies(has0, z3.Select(z3.Select(st.get_arr('DV'), self.upd.e), kq)
+                           == z3.Select(z3.Select(st0.get_arr('DV'), self.upd.e), kq))))
+            ex.oblige(st, 'any_exception_leaves_the_pending_updates_as_they_were', same, info={'exc': repr(exc)})
+            return
+        ex.oblige(st, 'accepted_call_went_through_the_writing_loop', z3.BoolVal(any(c[0] == '#loop' for c in calls)))
+
+    def finish(self, ex, st0, outcomes, b):
+        origins = {oc[1].origin for _, oc in outcomes if oc[0] == 'exc'}
+        ex.oblige(st0, 'rejection_while_writing_is_a_considered_path', z3.BoolVal('raised by write_entity' in origins))
+
+
+@register
+class RemovalTakesEveryState(_c02.RmDescriptorsAndStates):
+    id = 'C03.descriptor_removal_removes_every_state_of_the_descriptor'
+    prop = 'C03'
